@@ -234,7 +234,11 @@ impl C08 {
         let fx = ff(x.clone(), xt);
         let typed = xt == a.len();
         let want_ix: LL = if typed { x.iter().map(|&i| a[i].clone()).collect() } else { vec![] };
-        if let Some(m) = must_return(ctx, "map_indexes", "any", guard(|| sa.map_indexes(&fx)), input_x) {
+        if !typed {
+            // a map whose codomain is not the number of segments is no re-indexing map of `a`: outcome recorded, not judged
+            let o = guard(|| sa.map_indexes(&fx).is_some());
+            ctx.count(match o { Ok(true) => "unjudged:mistyped_reindex_Some", Ok(false) => "unjudged:mistyped_reindex_None", Err(_) => "unjudged:mistyped_reindex_panic" });
+        } else if let Some(m) = must_return(ctx, "map_indexes", "any", guard(|| sa.map_indexes(&fx)), input_x) {
             match (typed, m) {
                 (true, Some(s)) => expect_seg(ctx, "map_indexes", &s, &want_ix, ta, &input_x),
                 (true, None) => { ctx.check(false, "map_indexes/defined/value/typed", || json!({"input": input_x(), "observed": "None"})); }
@@ -242,7 +246,11 @@ impl C08 {
                 (false, None) => { ctx.evaluations += 1; }
             }
         }
-        if let Some(m) = must_return(ctx, "map_indexes<SF>", "any", guard(|| ssa.map_indexes(&fx)), input_x) {
+        if !typed {
+            // a map whose codomain is not the number of segments is no re-indexing map of `a`: outcome recorded, not judged
+            let o = guard(|| ssa.map_indexes(&fx).is_some());
+            ctx.count(match o { Ok(true) => "unjudged:mistyped_reindex_Some", Ok(false) => "unjudged:mistyped_reindex_None", Err(_) => "unjudged:mistyped_reindex_panic" });
+        } else if let Some(m) = must_return(ctx, "map_indexes<SF>", "any", guard(|| ssa.map_indexes(&fx)), input_x) {
             match (typed, m) {
                 (true, Some(s)) => expect_segs(ctx, "map_indexes<SF>", &s, &strs(&want_ix), &input_x),
                 (true, None) => { ctx.check(false, "map_indexes<SF>/defined/value/typed", || json!({"input": input_x(), "observed": "None"})); }
@@ -250,7 +258,11 @@ impl C08 {
                 (false, None) => { ctx.evaluations += 1; }
             }
         }
-        if let Some(m) = must_return(ctx, "indexed_values", "any", guard(|| sa.indexed_values(&fx)), input_x) {
+        if !typed {
+            // a map whose codomain is not the number of segments is no re-indexing map of `a`: outcome recorded, not judged
+            let o = guard(|| sa.indexed_values(&fx).is_some());
+            ctx.count(match o { Ok(true) => "unjudged:mistyped_reindex_Some", Ok(false) => "unjudged:mistyped_reindex_None", Err(_) => "unjudged:mistyped_reindex_panic" });
+        } else if let Some(m) = must_return(ctx, "indexed_values", "any", guard(|| sa.indexed_values(&fx)), input_x) {
             let want: Vec<usize> = want_ix.iter().flatten().cloned().collect();
             match (typed, m) {
                 (true, Some(v)) => { ctx.check(v.table.0 == want && v.target == ta, "indexed_values/concat/value/typed", || json!({"input": input_x(), "observed": v.table.0, "expected": want})); }
@@ -260,7 +272,11 @@ impl C08 {
             }
         }
 
-        if let Some(m) = must_return(ctx, "indexed_values<SF>", "any", guard(|| ssa.indexed_values(&fx)), input_x) {
+        if !typed {
+            // a map whose codomain is not the number of segments is no re-indexing map of `a`: outcome recorded, not judged
+            let o = guard(|| ssa.indexed_values(&fx).is_some());
+            ctx.count(match o { Ok(true) => "unjudged:mistyped_reindex_Some", Ok(false) => "unjudged:mistyped_reindex_None", Err(_) => "unjudged:mistyped_reindex_panic" });
+        } else if let Some(m) = must_return(ctx, "indexed_values<SF>", "any", guard(|| ssa.indexed_values(&fx)), input_x) {
             let want: Vec<String> = strs(&want_ix).into_iter().flatten().collect();
             match (typed, m) {
                 (true, Some(v)) => { ctx.check(v.0 .0 == want, "indexed_values<SF>/concat/value/typed", || json!({"input": input_x(), "observed": v.0 .0, "expected": want})); }
